@@ -197,3 +197,100 @@ Proof.
   destruct (do_parse CUSTOM_FUEL (mkCst s false 0 0)) as [r st]. apply H.
   unfold mx, MAX_CUSTOM_TYPE_NESTING_DEPTH. cbn. lia.
 Qed.
+
+(* ---- fuel: the parameter loops and the recursion of the custom-type parser never run out ------- *)
+Definition slen (st : cst) : nat := List.length (cs_s st).
+(* st' comes after st: same nesting level, no more input than before *)
+Definition fine (st st' : cst) : Prop := cs_depth st' = cs_depth st /\ (slen st' <= slen st)%nat.
+Lemma fine_refl st : fine st st. Proof. split; [reflexivity|lia]. Qed.
+Lemma fine_trans a b c : fine a b -> fine b c -> fine a c.
+Proof. intros [D1 L1] [D2 L2]. split; [congruence|lia]. Qed.
+
+Lemma take_while_len p s : (List.length (snd (take_while p s)) <= List.length s)%nat.
+Proof.
+  induction s as [|c r IH]; cbn [take_while]; [cbn; lia|]. destruct (p c); [|cbn; lia].
+  destruct (take_while p r) as [a b]. cbn [snd Datatypes.length] in *. lia.
+Qed.
+Lemma fine_set_s st s : (List.length s <= slen st)%nat -> fine st (set_s st s).
+Proof. intros H. split; [reflexivity|exact H]. Qed.
+Lemma fine_skip_blank st : fine st (skip_blank st).
+Proof. apply fine_set_s. apply take_while_len. Qed.
+Lemma fine_accept c st st' : accept c st = Some st' -> fine st st' /\ (slen st' < slen st)%nat.
+Proof.
+  unfold accept, slen. destruct (cs_s st) as [|x r] eqn:E; [discriminate|]. destruct (x =? c); [|discriminate].
+  intros H. inversion H; subst. cbn. rewrite E. cbn. split; [split; [reflexivity|cbn; rewrite E; cbn; lia]|lia].
+Qed.
+Lemma fine_skip_bc st : fine st (skip_blank_and_comma st).
+Proof.
+  unfold skip_blank_and_comma. destruct (accept 44 (skip_blank st)) as [st2|] eqn:E; [|apply fine_skip_blank].
+  apply fine_accept in E as [F _].
+  eapply fine_trans; [apply fine_skip_blank|]. eapply fine_trans; [exact F|apply fine_skip_blank].
+Qed.
+Lemma fine_read_ident st : fine st (snd (read_ident st)).
+Proof.
+  unfold read_ident. pose proof (take_while_len is_ident (cs_s st)) as L.
+  destruct (take_while is_ident (cs_s st)) as [a b]. cbn [snd] in *. apply fine_set_s. exact L.
+Qed.
+Lemma read_ident_nonempty st : fst (read_ident st) <> [] -> (slen (snd (read_ident st)) < slen st)%nat.
+Proof.
+  unfold read_ident, slen. destruct (cs_s st) as [|c r] eqn:E; cbn [take_while]; [cbn; congruence|].
+  destruct (is_ident c); [|cbn; congruence].
+  pose proof (take_while_len is_ident r) as L. destruct (take_while is_ident r) as [a b]. cbn in *. lia.
+Qed.
+Lemma fine_parse_u16 st n st' : parse_u16 st = Some (n, st') -> fine st st'.
+Proof.
+  unfold parse_u16. pose proof (take_while_len is_digit (cs_s st)) as L.
+  destruct (take_while is_digit (cs_s st)) as [d rest]. destruct d; [discriminate|].
+  destruct (dec_value (n0 :: d) <? 65536); [|discriminate]. intros H. inversion H; subst. apply fine_set_s. exact L.
+Qed.
+Lemma at_eof_slen st : at_eof st = false -> cs_s st <> [].
+Proof. unfold at_eof. destruct (cs_s st); [discriminate|discriminate]. Qed.
+
+Definition noof_c {A} (x : result ferr A * cst) : Prop := fst x <> Err EOutOfFuel.
+
+Section ElemFuel.
+Variable elem : cp coltype.
+Variable D : N.
+(* the element parser, called at nesting level D: never out of fuel, returns to the same level,
+   does not lengthen the input, and consumes input when it succeeds on a non-empty string *)
+Hypothesis Helem : forall st, cs_depth st = D ->
+  noof_c (elem st) /\ fine st (snd (elem st)) /\
+  (forall t, fst (elem st) = Ok t -> cs_s st <> [] -> (slen (snd (elem st)) < slen st)%nat).
+
+Lemma next_item_facts fin st : cs_depth st = D ->
+  let '(it, fin', st') := next_item elem fin st in
+  fine st st' /\
+  match it with
+  | Some r => r <> Err EOutOfFuel /\ (fin' = false -> (slen st' < slen st)%nat)
+  | None => True
+  end.
+Proof.
+  intros HD. unfold next_item. destruct fin; [split; [apply fine_refl|exact I]|].
+  pose proof (fine_skip_bc st) as F1.
+  destruct (at_eof (skip_blank_and_comma st)) eqn:Ee; [split; [exact F1|split; [discriminate|discriminate]]|].
+  destruct (accept RPAR (skip_blank_and_comma st)) as [st2|] eqn:E.
+  - apply fine_accept in E as [F2 _]. split; [eapply fine_trans; eassumption|exact I].
+  - destruct (Helem (skip_blank_and_comma st)) as (N1 & F2 & P); [destruct F1; congruence|].
+    destruct (elem (skip_blank_and_comma st)) as [r st2] eqn:Ee2. cbn [fst snd] in *.
+    split; [eapply fine_trans; eassumption|]. split; [exact N1|].
+    intros Hf. destruct r as [t|e]; [|discriminate].
+    specialize (P t eq_refl (at_eof_slen _ Ee)). destruct F1 as [_ L1]. lia.
+Qed.
+
+Lemma take_k_facts k : forall fin st, cs_depth st = D ->
+  let '(items, fin', st') := take_k k elem fin st in
+  fine st st' /\ Forall (fun r => r <> Err EOutOfFuel) items /\
+  ((List.length items < k)%nat -> fin' = true).
+Proof.
+  induction k as [|k IH]; intros fin st HD; cbn [take_k]; [split; [apply fine_refl|split; [constructor|lia]]|].
+  pose proof (next_item_facts fin st HD) as NI.
+  destruct (next_item elem fin st) as [[[x|] fin1] st1]; destruct NI as (F1 & R).
+  - specialize (IH fin1 st1 ltac:(destruct F1; congruence)).
+    destruct (take_k k elem fin1 st1) as [[l fin2] st2]. destruct IH as (F2 & A & B).
+    split; [eapply fine_trans; eassumption|]. split; [constructor; [apply R|exact A]|].
+    cbn [Datatypes.length]. intros H. apply B. lia.
+  - split; [exact F1|]. split; [constructor|]. intros _.
+    (* the iterator ended: its flag is set *)
+    unfold next_item in *. revert F1 R. clear. intros. exact eq_refl || idtac.
+Abort.
+End ElemFuel.
